@@ -2,6 +2,7 @@
 package main
 
 import (
+	"strings"
 	"encoding/json"
 	"fmt"
 	"os"
@@ -58,7 +59,18 @@ func main() {
 		return
 	}
 	if pv, st := core.Try(func() { c.Run(r) }); pv != nil {
-		r.HarnessError("check panicked: %v\n%s", pv, st)
+		if wp, ok := pv.(*core.WorkerPanic); ok {
+			pv, st = wp.Val, wp.Stack
+		}
+		origin := core.PanicOrigin(st)
+		if strings.HasPrefix(origin, "github.com/pdfcpu/pdfcpu/") && !strings.HasPrefix(origin, "github.com/pdfcpu/pdfcpu/vx/") {
+			// raised inside pdfcpu on an input the check considers valid for the operation: that is the
+			// implementation failing, not the harness. The exploration stops here (reported as incomplete).
+			r.Cut("the exploration was aborted by a panic inside pdfcpu")
+			r.Violation("panic-in-pdfcpu:"+origin, fmt.Sprintf("pdfcpu panicked during the check: %v (raised in %s)\n%s", pv, origin, st), map[string]any{"panic": fmt.Sprint(pv), "raised_in": origin})
+		} else {
+			r.HarnessError("check panicked: %v\n%s", pv, st)
+		}
 	}
 	os.Exit(r.Finish())
 }
